@@ -228,6 +228,48 @@ struct FDrv {
                 }
             }
         }
+        // rounding-boundary lattice of the gradual-underflow range: the result keeps P - d bits; the d discarded bits are
+        // exactly / just below / just above one half (and zero, one, all ones), the last kept bit is even or odd; the
+        // operand sits in three different binades so that emulations which scale in several steps round once, not twice
+        {
+            typedef typename fbits<S>::U UB;
+            const int P = sizeof(S) == 4 ? 24 : 53, EMIN = sizeof(S) == 4 ? -126 : -1022, BIAS = sizeof(S) == 4 ? 127 : 1023;
+            const int shifts[] = {0, sizeof(S) == 4 ? 120 : 1000, sizeof(S) == 4 ? -120 : -1000};
+            std::vector<std::pair<S, IS>> cases;
+            Rng lr(991 + sizeof(S));
+            for (int d = 1; d < P; ++d) {
+                const UB lowmask = (UB(1) << d) - 1, half = UB(1) << (d - 1);
+                const UB pats[] = {0, 1, UB(half - 1), half, UB(half + 1), lowmask};
+                for (UB pat : pats)
+                    for (int lsb = 0; lsb < 2; ++lsb)
+                        for (int sgn = 0; sgn < 2; ++sgn)
+                            for (int sh : shifts) {
+                                UB frac = (UB(lr.next()) << (d + 1)) | (UB(lsb) << d) | (pat & lowmask);
+                                frac &= (UB(1) << (P - 1)) - 1;
+                                UB bits = (UB(sgn) << (sizeof(S) * 8 - 1)) | (UB(BIAS + sh) << (P - 1)) | frac;
+                                cases.push_back(std::make_pair(from_bits<S>(bits), IS(EMIN - d - sh)));
+                            }
+            }
+            for (int which = 0; which < 2; ++which) {
+                const char* form = which ? "scalbn" : "ldexp";
+                set_label(tn, form);
+                for (int pass = 0; pass < (N > 1 ? 2 : 1); ++pass)
+                    for (std::size_t base = 0; base < cases.size(); base += (pass ? 1 : N)) {
+                        A a, r{};
+                        IA ex;
+                        for (unsigned j = 0; j < N; ++j) {
+                            const std::pair<S, IS>& c = cases[pass ? base : (base + j) % cases.size()];   // pass 1: uniform vector
+                            a[j] = c.first;
+                            ex[j] = c.second;
+                        }
+                        opaque(a);
+                        opaque(ex);
+                        int sg = guarded([&] { r = avel::to_array(which ? avel::scalbn(V(a), IV(ex)) : avel::ldexp(V(a), IV(ex))); });
+                        for (unsigned j = 0; j < (pass ? 1u : unsigned(N)); ++j)
+                            emit(Fact("ldexp", 'f').mode(g_rm).val("a", a[j]).val("ex", ex[j]).val("r", sg ? S(0) : r[j]).signal(sg), tn, int(j), form);
+                    }
+            }
+        }
         set_label(tn, "ilogb");
         for_single_batches([&](const A& a) {
             IA r{};
